@@ -54,6 +54,14 @@ class ExpandingDriver:
         self.feats = set()
         self.dir = None
         self.nfile = 0
+        # how precomputed hash lists are handed to the *_alt entry points: "fresh" = a new list per call, "scratch" = ONE list object
+        # whose contents are overwritten for every call (a caller's reusable buffer), "perkey" = one list object per key, computed
+        # once and reused for every call and every live filter (hcache may be shared with a twin driver of different geometry)
+        self.alt_mode = case.get("alt_mode", "fresh")
+        self.scratch = []
+        self.hcache = {}
+        self.depth_extra = 3
+        self.last_alt_probe = False
         if self.rot:
             self.obj = self.R(self.est, self.fpr, max_queue_size=self.q, hash_function=self.hf)
         else:
@@ -72,9 +80,37 @@ class ExpandingDriver:
             self.feats.add("rotation_dropped_filter")
         self.model.append(0)
 
+    def _hashes(self, key):
+        """hash list for the precomputed entry points, longer than the filter needs, as the object the case's alt_mode prescribes"""
+        from probables import BloomFilter
+        from probables.hashes import default_fnv_1a
+        if self._nh is None:
+            self._nh = BloomFilter(self.est, self.fpr).number_hashes
+        if self.alt_mode == "perkey":
+            if key not in self.hcache:
+                self.hcache[key] = (self.hf or default_fnv_1a)(key, self._nh + self.depth_extra)
+            return self.hcache[key]
+        hs = (self.hf or default_fnv_1a)(key, self._nh + self.depth_extra)
+        if self.alt_mode == "scratch":
+            self.scratch[:] = hs
+            return self.scratch
+        return hs
+
+    def _force_value(self, force):
+        # the flag is documented as a bool and judged by truthiness; callers also pass 0 / 1
+        if not self.case.get("intflags"):
+            return force
+        return (True, 1)[self.add_calls % 2] if force else (False, 0)[self.add_calls % 2]
+
     def _add(self, key, force, label, precheck=True):
         ctx, o = self.ctx, self.obj
-        if precheck or self.rot or (key not in self.inserted and not force):
+        use_alt = self.add_calls % 4 == 3 or (self.last_alt_probe and self.alt_mode != "fresh")
+        self.last_alt_probe = False
+        if (precheck or self.rot or (key not in self.inserted and not force)) and use_alt and self.alt_mode != "fresh":
+            # the look-up goes through the precomputed entry point as well, with the same list object as the add that follows
+            present = ctx.call(self.noexc, o.check_alt, self._hashes(key))
+            self.feats.add("check_alt_before_add_alt_same_list")
+        elif precheck or self.rot or (key not in self.inserted and not force):
             present = ctx.call(self.noexc, o.check, key)
         elif force and key not in self.inserted:
             present = False  # irrelevant: a forced add is always effective
@@ -84,17 +120,17 @@ class ExpandingDriver:
             # can be issued WITHOUT a look-up right before it (a look-up would reset any per-lookup cache in the library)
             present = True
             self.feats.add("add_without_preceding_lookup")
-        if self.add_calls % 4 == 3:
+        fv = self._force_value(force)
+        if use_alt:
             # precomputed-hash entry point, with a list computed for a larger depth than the filter uses
-            from probables import BloomFilter
-            from probables.hashes import default_fnv_1a
-            if self._nh is None:
-                self._nh = BloomFilter(self.est, self.fpr).number_hashes
-            hs = (self.hf or default_fnv_1a)(key, self._nh + 3)
-            ctx.call(self.noexc, o.add_alt, hs, force)
+            ctx.call(self.noexc, o.add_alt, self._hashes(key), fv)
             self.feats.add("add_alt_longer_list")
+            if self.alt_mode != "fresh":
+                self.feats.add("alt_list_" + self.alt_mode)
         else:
-            ctx.call(self.noexc, o.add, key, force)
+            ctx.call(self.noexc, o.add, key, fv)
+        if fv is not force:
+            self.feats.add("force_flag_as_int")
         self.add_calls += 1
         eff = force or not present
         if eff:
@@ -110,7 +146,7 @@ class ExpandingDriver:
             self.inserted.add(key)
             if self.rot and not present:
                 # reported absent just before the add: the recency guarantee starts here
-                self.window[key] = self.effective
+                self.window[key] = [self.effective, (self.q - 1) * self.est]
         else:
             self.feats.add("ineffective_add")
         ctx.op(label, repr(key), bool(force), bool(present))
@@ -136,7 +172,12 @@ class ExpandingDriver:
                 self.used += 1
             else:
                 k = self.key(op[1] % self.used)
-            r = ctx.call(self.noexc, o.check, k)
+            if self.alt_mode != "fresh" and op[1] % 3 != 1:
+                r = ctx.call(self.noexc, o.check_alt, self._hashes(k))
+                self.last_alt_probe = True
+                self.feats.add("probe_alt")
+            else:
+                r = ctx.call(self.noexc, o.check, k)
             if not self.rot and k in self.inserted and self._o("growth"):
                 ctx.check(self._o("growth"), r is True, lambda: f"stand-alone check({k!r}) of an inserted key -> {r!r}")
             self.feats.add("probe")
@@ -174,15 +215,28 @@ class ExpandingDriver:
             self.window.clear()
             ctx.op("pop")
         elif kind == "reload":
-            self._reload(op[1])
+            self._reload(op[1], op[2] if len(op) > 2 else 0)
         else:
             raise ValueError(op)
         self.verify(f"after {op}")
 
-    def _reload(self, ch):
+    def _reload(self, ch, dq=0):
         ctx, o = self.ctx, self.obj
         ch = ch % 4
         K = self.R if self.rot else self.E
+        if self.rot and dq:
+            # the export does not record max_queue_size: the loader supplies it, and may supply another value than the writer used.
+            # A smaller one must leave the most recent filters (the bound holds for the loaded object, the window shrinks to the
+            # new (Q-1)*est); a larger one only lengthens retention, so every key keeps the smallest bound seen since its insertion
+            newq = max(1, self.q + dq)
+            if newq != self.q:
+                self.feats.add("reload_with_smaller_queue" if newq < self.q else "reload_with_larger_queue")
+                if newq < len(self.model):
+                    self.feats.add("reload_truncates_queue")
+                    del self.model[: len(self.model) - newq]
+                self.q = newq
+                for v in self.window.values():
+                    v[1] = min(v[1], (self.q - 1) * self.est)
         if ch == 0:
             raw = bytes(o)
             if self.rot:
@@ -242,8 +296,7 @@ class ExpandingDriver:
             ctx.check(b, o.max_queue_size == self.q, "max_queue_size changed")
         w = self._o("window")
         if w:
-            limit = (self.q - 1) * self.est
-            for k, t in self.window.items():
+            for k, (t, limit) in self.window.items():
                 age = self.effective - t
                 if age <= limit:
                     r = o.check(k)
@@ -261,11 +314,40 @@ class ExpandingDriver:
         self.verify("fresh")
         for op in self.case["ops"]:
             self.step(op)
+        self.finish()
+
+    def finish(self):
         for f in self.feats:
             self.ctx.feat(f)
         self.ctx.feat("est=%s" % (self.est if self.est < 4 else "4+"))
         if self.rot:
             self.ctx.feat("Q=%d" % self.q)
+
+
+def run_twins(case, ctx, P):
+    """run the case on one driver, or (case["twin"] = d > 0) on TWO live filters of different geometry (est and est + d) that receive the
+    same operations in lock-step and share one hash-list object per key for the precomputed entry points, while every verification
+    goes through the key-based API: whatever one filter does to a caller's list, or keeps in state shared between instances, shows
+    in the other"""
+    d1 = ExpandingDriver(case, ctx, P)
+    tw = case.get("twin")
+    if not tw:
+        d1.run()
+        return d1
+    from probables import BloomFilter
+    d2 = ExpandingDriver(dict(case, est=case["est"] + tw), ctx, P)
+    d1.alt_mode = d2.alt_mode = "perkey"
+    d2.hcache = d1.hcache
+    d1._nh = d2._nh = max(BloomFilter(d1.est, d1.fpr).number_hashes, BloomFilter(d2.est, d2.fpr).number_hashes)
+    d1.verify("fresh")
+    d2.verify("twin fresh")
+    for op in case["ops"]:
+        d1.step(op)
+        d2.step(op)
+    d1.feats |= d2.feats
+    d1.feats.add("twin_filters_sharing_hash_lists")
+    d1.finish()
+    return d1
 
 
 def case_strategy(tier, rot, max_ops=80):
@@ -277,7 +359,7 @@ def case_strategy(tier, rot, max_ops=80):
     base = [st.tuples(st.just("new")), st.tuples(st.just("new")), st.tuples(st.just("new")),
             st.tuples(st.just("dup"), i, st.booleans()), st.tuples(st.just("forced"), i, st.booleans()),
             st.tuples(st.just("probe"), i), st.tuples(st.just("bulk"), st.integers(0, 400)),
-            st.tuples(st.just("reload"), st.integers(0, 3))]
+            st.tuples(st.just("reload"), st.integers(0, 3), st.sampled_from([0, 0, 0, -1, -2, 1] if rot else [0]))]
     rare = [st.tuples(st.just("push"))] + ([st.tuples(st.just("pop"))] if rot else [])
 
     @st.composite
@@ -292,6 +374,9 @@ def case_strategy(tier, rot, max_ops=80):
             "q": draw(st.integers(1, 4)),
             "hash": draw(gen.hash_name_st(gen.GOOD_HASHES + ["pairs"])),
             "ops": [list(o) for o in draw(st.lists(op, min_size=5, max_size=max_ops))],
+            "alt_mode": draw(st.sampled_from(["fresh", "scratch", "perkey"])),
+            "intflags": draw(st.booleans()),
+            "twin": draw(st.sampled_from([0, 0, 0, 1, 2])),
         }
 
     return case()
